@@ -37,6 +37,16 @@ def allbytes_group():
     return H.Group([(name, True)], rules, name, b"\0", 2, extras, label="nul:one rule per byte value")
 
 
+def shared_class_groups():
+    out = []
+    for extra in range(0, 10):
+        shared = ('set', frozenset([0] + list(range(0x7e, 0x100))))
+        rules = [H.Rule(R.plus(shared), scs=["NS"])] + [H.Rule(R.lit(ord("a") + i), scs=["NS"]) for i in range(extra)]
+        out.append((extra, H.Group([("NS", True)], rules, "NS", b"\0~a", 3, [b"~~", b"\0~", b"~\0~", b"a~~\0", b"\xff\xff\0", b"~" * 9],
+                                   label="nul-shared-class:+%d" % extra)))
+    return out
+
+
 TABLES = ["-Cem", "-Cm", "-Ce", "-C", "-Cf", "-Cfe", "-CF", "-CFe"]
 
 
@@ -101,6 +111,17 @@ def run(tier):
     # REJECT with NULs
     J("reject", pattern_groups(k, L, H.ops_action([H.OP_REJECT]))[::2],
       {"VF_OPMASK": H.opmask(H.OP_REJECT), "VF_FREE_OP": 1, "VF_BUDGET_OP": 99}, per=40)
+    # the backing-up sets each alone in its specification: equivalence classes are global, packing changes which class NUL lands in
+    # (and with it whether the full tables get a separate NUL table) - round-2 seed C04-r2m2
+    bk = [g for g in pattern_groups(k, L) if g.label.startswith("nul-backup")]
+    for tb in TABLES + ["-Cfae", "-Cfa"]:
+        for g in bk:
+            J("solo-backup%s-%s" % (tb, g.enter), [g], {"VF_BUFSIZES": "0,2"}, per=1, flex_args=[tb, "-8"])
+    # NUL sharing its equivalence class with other characters, for every number of further classes 0..9 (a power-of-two number of
+    # classes makes the full-table row width equal to the class count) - round-2 seed C02-r2m1
+    for tb in ("-Cfe", "-Cfae", "-CFe", "-Cem", "-Ce"):
+        for extra, g in shared_class_groups():
+            J("nul-shared%s-%d" % (tb, extra), [g], {"VF_BUFSIZES": "0,2"}, per=1, flex_args=[tb, "-8"], driver_args=["-H", "400"])
     # 256 rules, 256 equivalence classes
     for tb in ("-Ce", "-Cem", "-C", "-Cfe", "-CFe", "-Cf"):
         J("allbytes" + tb, [allbytes_group()], {}, per=1, flex_args=[tb, "-8"])
